@@ -5,6 +5,7 @@ package canary
 import (
 	"sort"
 	"sync"
+	"sync/atomic"
 	"time"
 )
 
@@ -191,4 +192,43 @@ func relink(x, y *node) {
 	x.next.mu.Lock()
 	x.next = y
 	x.next.v = 1 // the locked node is no longer x.next
+}
+
+// a transfer shared through a sync.Map: the goroutine that stored it owns it until it hands it to run();
+// waiters read err only after the owner closed done
+type xfer struct {
+	done   chan struct{}
+	err    error
+	total  int
+	refs   atomic.Int32
+	cancel func()
+}
+
+var xfers sync.Map
+
+func startXfer(k string) error {
+	v, loaded := xfers.LoadOrStore(k, &xfer{done: make(chan struct{})})
+	x := v.(*xfer)
+	if !loaded {
+		x.total = 1 // owner, before done
+		go x.run()
+		x.total = 2 // ownership went with the goroutine
+	}
+	return x.wait()
+}
+
+func (x *xfer) run() {
+	defer close(x.done)
+	x.err = nil    // owner, before done
+	x.cancel = nil // owner, before done
+}
+
+func (x *xfer) wait() error {
+	x.refs.Add(1) // atomic: synchronised by construction
+	_ = x.total   // nothing orders this
+	if x.cancel != nil {
+		x.cancel() // nothing orders this
+	}
+	<-x.done
+	return x.err // after done
 }
